@@ -593,10 +593,17 @@ fn any_call_in_flight(ctx: &Ctx, seq: u64) -> bool {
 
 fn rule_c16(ctx: &Ctx, out: &mut Vec<Violation>) {
     let m = ctx.m;
-    if !ctx.plan.has_tag("cancel") {
+    if !ctx.plan.has_tag("audit_lists") {
         return;
     }
-    // C16.attached: at every audit, a subscription exists <=> it is in its (live) topic's list.
+    let cancel_plan = ctx.plan.has_tag("cancel");
+    let rule_name = if cancel_plan { "C16.attached" } else { "C11.consistent" };
+    let racing = |sub: &str| -> bool {
+        m.sub_creates.get(sub).map(|cs| cs.iter().any(|cc| m.sub_deletes.get(sub).map(|ds| ds.iter().any(|dc| m.calls[cc].inv_seq < m.calls[dc].ret_seq_or_max() && m.calls[dc].inv_seq < m.calls[cc].ret_seq_or_max())).unwrap_or(false))).unwrap_or(false)
+    };
+    // At every audit, a subscription exists <=> it is in its (live) topic's list. This needs no
+    // knowledge of what abandoned or racing requests did: whatever they did, the two views of
+    // the server must agree once it is quiescent.
     // Group audit calls by the barrier they follow.
     let audits: Vec<&Call> = m.calls.values().filter(|c| c.client == 0).collect();
     let mut by_barrier: BTreeMap<u64, Vec<&Call>> = BTreeMap::new();
@@ -625,9 +632,12 @@ fn rule_c16(ctx: &Ctx, out: &mut Vec<Violation>) {
                             let recreated = m.topic_creates.get(&sv.topic).map(|cs| cs.iter().filter(|x| m.calls[x].maybe_effective()).count() > 1).unwrap_or(false);
                             if !recreated && !listed[&sv.topic].contains(sub) {
                                 let abandoned_create = m.sub_creates.get(sub).map(|cs| cs.iter().any(|x| matches!(m.calls[x].out, Some(Outcome::Abandoned(_))))).unwrap_or(false);
+                                if in_flight_mutation(ctx, c.inv_seq) {
+                                    continue;
+                                }
                                 out.push(v(
-                                    "C16.attached",
-                                    if abandoned_create { "abandoned_create_unattached" } else { "unattached" },
+                                    rule_name,
+                                    if abandoned_create { "abandoned_create_unattached".to_string() } else if racing(sub) { "unattached:create_overlaps_delete".to_string() } else { "unattached".to_string() },
                                     format!("subscription {} exists (GetSubscription OK, topic {}) but is not in ListTopicSubscriptions of that topic", sub, sv.topic),
                                 ));
                             }
@@ -635,8 +645,8 @@ fn rule_c16(ctx: &Ctx, out: &mut Vec<Violation>) {
                     }
                     Outcome::Err(NOT_FOUND, _) => {
                         for (t, subs) in listed.iter() {
-                            if subs.contains(sub) {
-                                out.push(v("C16.attached", "listed_but_missing", format!("subscription {} is listed by topic {} but GetSubscription says NOT_FOUND", sub, t)));
+                            if subs.contains(sub) && !in_flight_mutation(ctx, c.inv_seq) {
+                                out.push(v(rule_name, if racing(sub) { "listed_but_missing:create_overlaps_delete" } else { "listed_but_missing" }, format!("subscription {} is listed by topic {} but GetSubscription says NOT_FOUND", sub, t)));
                             }
                         }
                     }
@@ -647,7 +657,7 @@ fn rule_c16(ctx: &Ctx, out: &mut Vec<Violation>) {
     }
     // C16.partial_publish: an abandoned Publish is delivered entirely or not at all, on every
     // subscription that was attached throughout.
-    if m.drain_end.is_some() {
+    if m.drain_end.is_some() && cancel_plan {
         for c in m.calls.values() {
             if let (Req::Publish { topic, tokens, .. }, Some(Outcome::Abandoned(_))) = (&c.req, &c.out) {
                 let mut per_sub: Vec<(String, usize)> = Vec::new();
